@@ -1,75 +1,104 @@
 package main
 
 import (
-	"bytes"
 	"context"
+	"encoding/json"
 	"fmt"
 
 	"github.com/dolthub/go-mysql-server/sql"
+	gmstypes "github.com/dolthub/go-mysql-server/sql/types"
 
+	"github.com/dolthub/dolt/go/libraries/doltcore/merge"
 	"github.com/dolthub/dolt/go/store/prolly/tree"
-	"github.com/dolthub/dolt/go/store/val"
 )
 
-func main() {
-	ctx := context.Background()
-	ns := tree.NewTestNodeStore()
-	mk := func(n int, seed byte) []byte {
-		b := make([]byte, n)
-		for i := range b {
-			b[i] = byte(i*7+int(seed)) | 1
+var ctx = context.Background()
+var ns = tree.NewTestNodeStore()
+
+func parse(s string) any {
+	var v any
+	if err := json.Unmarshal([]byte(s), &v); err != nil {
+		panic(err)
+	}
+	return v
+}
+func mem(s string) sql.JSONWrapper { return gmstypes.JSONDocument{Val: parse(s)} }
+func stored(s string) sql.JSONWrapper {
+	root, err := tree.SerializeJsonToAddr(ctx, ns, mem(s))
+	if err != nil {
+		panic(err)
+	}
+	return tree.NewIndexedJsonDocument(root, ns)
+}
+func show(w sql.JSONWrapper) string {
+	if w == nil {
+		return "<nil>"
+	}
+	v, err := w.ToInterface(ctx)
+	if err != nil {
+		return "ERR " + err.Error()
+	}
+	b, _ := gmstypes.MarshallJsonValue(v)
+	return string(b)
+}
+func m(name, b, l, r string) {
+	for _, mk := range []struct {
+		n string
+		f func(string) sql.JSONWrapper
+	}{{"stored", stored}, {"in-memory", mem}} {
+		res, conflict, err := merge.MergeJSON(ctx, ns, mk.f(b), mk.f(l), mk.f(r))
+		fmt.Printf("%s [%s]: base=%s left=%s right=%s => conflict=%v err=%v result=%s\n", name, mk.n, b, l, r, conflict, err, func() string {
+			if err != nil || conflict {
+				return "-"
+			}
+			return show(res)
+		}())
+	}
+}
+func op(name, doc, kind, path, val string) {
+	defer func() {
+		if p := recover(); p != nil {
+			fmt.Printf("%s: %s(%s, %s, %s) PANIC %v\n", name, kind, doc, path, val, p)
 		}
-		return b
+	}()
+	for _, mk := range []struct {
+		n string
+		f func(string) sql.JSONWrapper
+	}{{"in-memory", mem}, {"stored", stored}} {
+		d := mk.f(doc).(gmstypes.MutableJSON)
+		var out gmstypes.MutableJSON
+		var ch bool
+		var err error
+		switch kind {
+		case "Set":
+			out, ch, err = d.Set(ctx, path, mem(val))
+		case "Insert":
+			out, ch, err = d.Insert(ctx, path, mem(val))
+		case "Replace":
+			out, ch, err = d.Replace(ctx, path, mem(val))
+		case "Remove":
+			out, ch, err = d.Remove(ctx, path)
+		}
+		fmt.Printf("%s [%s]: %s(%s, %s, %s) => changed=%v err=%v result=%s\n", name, mk.n, kind, doc, path, val, ch, err, func() string {
+			if err != nil {
+				return "-"
+			}
+			return show(out)
+		}())
 	}
-	// probe 1: 4000-byte value vs 8000-byte value with same prefix
-	a := mk(8000, 3)
-	p := a[:4000]
-	oa, _ := val.NewOutOfBandAdaptiveValue(ctx, ns, a)
-	op, _ := val.NewOutOfBandAdaptiveValue(ctx, ns, p)
-	c, err := ns.CompareAdaptive(ctx, op, oa, val.BytesAdaptiveEnc)
-	fmt.Println("probe1 CompareAdaptive(prefix4000, full8000) =", c, err, " model:", bytes.Compare(p, a))
-	c, err = ns.CompareAdaptive(ctx, oa, op, val.BytesAdaptiveEnc)
-	fmt.Println("probe1r =", c, err, " model:", bytes.Compare(a, p))
-	// inline 4000 vs OOB 8000
-	ip := val.AdaptiveValueInlineBytes(p)
-	c, err = ns.CompareAdaptive(ctx, ip, oa, val.BytesAdaptiveEnc)
-	fmt.Println("probe1 inline prefix vs oob full =", c, err)
-	// probe 2: split rune
-	s1 := bytes.Repeat([]byte("a"), 3999)
-	s1 = append(s1, []byte("é")...)
-	s1 = append(s1, bytes.Repeat([]byte("b"), 100)...)
-	s2 := bytes.Repeat([]byte("a"), 3999)
-	s2 = append(s2, []byte("ñ")...)
-	s2 = append(s2, bytes.Repeat([]byte("b"), 100)...)
-	o1, _ := val.NewOutOfBandAdaptiveValue(ctx, ns, s1)
-	o2, _ := val.NewOutOfBandAdaptiveValue(ctx, ns, s2)
-	for _, coll := range []sql.CollationID{sql.Collation_utf8mb4_0900_bin, sql.Collation_utf8mb4_0900_ai_ci, sql.Collation_utf8mb4_general_ci} {
-		c, err = ns.CompareAdaptiveCollatedStrings(ctx, o1, o2, coll)
-		fmt.Println("probe2", coll.Name(), "oob/oob =", c, err, " inline model:", val.CompareCollatedStrings(coll, s1, s2))
-	}
-	// probe 3: short reads
-	_, h1, _ := tree.SerializeBytesToAddr(ctx, ns, bytes.NewReader(a), len(a))
-	_, h2, _ := tree.SerializeBytesToAddr(ctx, ns, &shortReader{b: a, n: 1000}, len(a))
-	fmt.Println("probe3 short-read same hash:", h1 == h2)
 }
 
-type shortReader struct {
-	b []byte
-	n int
-}
-
-func (s *shortReader) Read(p []byte) (int, error) {
-	if len(s.b) == 0 {
-		return 0, fmt.Errorf("EOF")
-	}
-	n := s.n
-	if n > len(p) {
-		n = len(p)
-	}
-	if n > len(s.b) {
-		n = len(s.b)
-	}
-	copy(p, s.b[:n])
-	s.b = s.b[n:]
-	return n, nil
+func main() {
+	m("prefix-keys", `{"a":{"x":1},"ab":1}`, `{"a":{"x":2},"ab":2}`, `{"a":{"x":1},"ab":3}`)
+	m("prefix-keys-control", `{"a":{"x":1},"b":1}`, `{"a":{"x":2},"b":2}`, `{"a":{"x":1},"b":3}`)
+	m("array-shrink", `{"k":[1,2,3],"z":0}`, `{"k":[1,2,3],"z":1}`, `{"k":[],"z":0}`)
+	m("array-shrink-front", `{"k":[1,2,3,4],"z":0}`, `{"k":[1,2,3,4],"z":1}`, `{"k":[3,4],"z":0}`)
+	m("nested-empty-array", `{"k":[[]],"z":0}`, `{"k":[[]],"z":1}`, `{"k":[[true]],"z":0}`)
+	op("panic", `[]`, "Set", "$[0]", `-823`)
+	op("panic-obj", `{}`, "Set", "$[0]", `-823`)
+	op("last-n", `[1,2,3]`, "Set", "$[last-1]", `9`)
+	op("scalar-root", `true`, "Set", "$[1]", `9`)
+	op("wrap2", `[{}]`, "Replace", "$[0][0][0]", `9`)
+	op("esc-sibling", `{"a\tb":1,"a.c":2,"k":3}`, "Remove", `$."a.c"`, ``)
+	op("esc-sibling-control", `{"a b":1,"a.c":2,"k":3}`, "Remove", `$."a.c"`, ``)
 }
